@@ -10,6 +10,7 @@ import vlib
 ENGINE = {"C01", "C02", "C03", "C04", "C05", "C09"}
 RESOLVE = {"C06", "C07", "C08", "C10"}
 APP = {"C12", "C13", "C14"}
+CONC = {"C20"}
 
 
 def setup():
@@ -20,6 +21,7 @@ def setup():
     d = vlib.scratch_dir("setup")
     try:
         vlib.build_harness(d)          # warms the Go build cache
+        vlib.build_harness(d, race=True)
     finally:
         vlib.rm(d)
     vlib.log("setup ok")
@@ -44,6 +46,9 @@ def main():
     if a.prop in APP:
         import check_app
         return check_app.run_check(a.prop, a.tier, a.replay)
+    if a.prop in CONC:
+        import check_conc
+        return check_conc.run_check(a.prop, a.tier, a.replay)
     raise vlib.Infra("no check registered for %r" % a.prop)
 
 
